@@ -272,7 +272,12 @@ def module(case, idx, libpath):
             a2 = f2.addressof(lib2, n)
             p1 = int(f1.cast("uintptr_t", a1))
             p2 = int(f2.cast("uintptr_t", a2))
-            c1, c2 = canon(f1, f1.typeof(a1)), canon(f2, f2.typeof(a2))
+            # the variable's type: an array variable is its own address in-line (addressof returns the array),
+            # a pointer to the array out-of-line; compare the type of the variable itself
+            def vartype(ffi, a):
+                t = ffi.typeof(a)
+                return t if t.kind == "array" else t.item
+            c1, c2 = canon(f1, vartype(f1, a1)), canon(f2, vartype(f2, a2))
             v1, v2 = vrepr(f1, getattr(lib1, n)), vrepr(f2, getattr(lib2, n))
         except Exception as e:
             diff("var", "global %s: %s %s" % (n, type(e).__name__, str(e)[:150]))
